@@ -22,7 +22,8 @@ RULE = ("For a base search (structure, pattern, atol) the match set of the real 
         "distinct by (structure, pattern, seed).")
 ASSUMPTIONS = ["completeness against an independent matcher is C02's business; here only agreement between executions is judged",
                "hint triples are validated by the harness's own geometry after the documented auto-completion",
-               "supercells are built with the real Atoms.replicate (its correctness is C12's business)"]
+               "supercells are built with the real Atoms.replicate (its correctness is C12's business)",
+               "the supercell relation is asserted only for cells wider than 2*(diameter+2*atol) in every direction (below that one unit-cell atom group can stand for two crystal occurrences)"]
 ANCHOR_FUNCS = [("mofun/mofun.py", "find_pattern_in_structure"), ("mofun/helpers.py", "position_index_farthest_from_axis"), ("mofun/atoms.py", "Atoms.replicate")]
 REQUIRED_LINES = [("mofun/mofun.py", "axisp2_idx = np.argmax(p_ss[axisp1_idx, :])"), ("mofun/mofun.py", "match_chosen = random.choice(good_indices)"),
                   ("mofun/mofun.py", "nvs = np.array([np.cross(cell[0], cell[1])")]
@@ -172,7 +173,13 @@ def metamorphic(ctx, st, S, P, atol, rng, w, dims, seed, n_hint=4, real=False):
         r, _, _, exc = run_search(S, P, atol, seed=seed + 7919, schedule=sched)
         if exc is None:
             compare(ctx, st, base, r, "rng schedule %s / other seed" % sched, w)
-    # 6. supercell
+    # 6. supercell. The a*b*c relation presupposes that occurrences in the infinite crystal and atom groups of the unit cell
+    # correspond one to one. In a cell narrower than 2*(diameter+2*atol) the same atoms can form the pattern through two
+    # different periodic images: one atom group in the unit cell (C02: reported once), two per image in the supercell. No
+    # implementation can satisfy the relation there, so it is asserted only above that width.
+    if dims is not None and not np.all(G.perp_widths(cell) > 2 * (G.diameter(np.asarray(P.positions, float)) + 2 * atol)):
+        st.count("supercell_relation_not_applicable_(cell narrower than twice the pattern)")
+        dims = None
     if dims is not None:
         a, b, c = dims
         S6 = S.copy()
